@@ -44,7 +44,9 @@ func (r *balanceSingleReporter) Process(ln *shared.LogNode) error {
 			}
 		} else {
 			if el.Name == r.singleElement {
-				r.root.AddDeep(shared.NewElement(el.Name, 0), shared.DefaultCategorySeparator)
+				// the element logged directly stands for itself
+				r.root.AddDeep(shared.NewElement(el.Name, el.Value), shared.DefaultCategorySeparator)
+				r.total += el.Value
 			}
 		}
 	}
